@@ -203,6 +203,24 @@ func (c *composer) accRuleSet(rules []SRule, doc *Value, guard []string) bool {
 		return c.accType(t, doc, guard)
 	}
 	switch t {
+	case "object":
+		// an object alternative without example: no key is named, additionalProperties decides all
+		for _, r := range rules {
+			if r.Name != "type" && r.Name != "additionalProperties" {
+				c.unspecified("object rule set with rule " + r.Name)
+				return false
+			}
+		}
+		if doc.Kind != KObject {
+			return false
+		}
+		c.feat["rule-set-object-alternative"] = true
+		for _, m := range doc.Members {
+			if !c.accAdditional(pseudo.Rule("additionalProperties"), m.Val) {
+				return false
+			}
+		}
+		return true
 	case "integer":
 		pseudo.Lit, pseudo.Tok = KNumber, "0"
 	case "float", "decimal":
